@@ -111,14 +111,15 @@ type Exec struct {
 	W   *World
 	Ctx sdk.Context
 
-	Log         []Op
-	Ress        []Res
-	Halted      string          // non-empty once the chain would have halted
-	LastEndTime time.Time       // block time at which the last end-of-block ran
-	MidSnap     *Snap           // state between the staking and the alliance end-blocker of the last block op
-	EndSnap     *Snap           // state at the last block boundary (after both end-blockers, before time advances)
-	blockHad    map[string]bool // op kinds executed successfully since the last block boundary
-	ErrLogs     []ErrLog        // Error-level log lines (x/staking logs swallowed hook errors)
+	Log                []Op
+	Ress               []Res
+	Halted             string          // non-empty once the chain would have halted
+	LastEndTime        time.Time       // block time at which the last end-of-block ran
+	MidSnap            *Snap           // state between the staking and the alliance end-blocker of the last block op
+	EndSnap            *Snap           // state at the last block boundary (after both end-blockers, before time advances)
+	blockHad           map[string]bool // op kinds executed successfully since the last block boundary
+	LastClaimAllFailed []string        // position keys whose claim failed in the last claim_all
+	ErrLogs            []ErrLog        // Error-level log lines (x/staking logs swallowed hook errors)
 
 	Oracles []Oracle
 
@@ -376,14 +377,19 @@ func (x *Exec) run(op *Op) Res {
 		// every existing delegation claims, each as its own transaction, in store order
 		var firstErr Res
 		firstErr.OK = true
+		var failed []string
+		defer func() { x.LastClaimAllFailed = failed }()
 		for _, d := range ListDelegations(w, x.Ctx) {
 			d := d
 			r := x.tx(func(ctx sdk.Context) error {
 				_, err := w.MsgSrv.ClaimDelegationRewards(ctx, alliancetypes.NewMsgClaimDelegationRewards(d.DelegatorAddress, d.ValidatorAddress, d.Denom))
 				return err
 			})
-			if !r.OK && firstErr.OK {
-				firstErr = r
+			if !r.OK {
+				failed = append(failed, fmt.Sprintf("%d/%d/%s", w.DelIndex(d.DelegatorAddress), w.ValIndex(d.ValidatorAddress), d.Denom))
+				if firstErr.OK {
+					firstErr = r
+				}
 			}
 		}
 		return firstErr
